@@ -201,7 +201,8 @@ def block_diagonalize(
 
     algorithm = main if hermitian else nonhermitian
 
-    if solve_sylvester is not None and fully_diagonalize:
+    custom_solve_sylvester = solve_sylvester is not None
+    if custom_solve_sylvester and fully_diagonalize:
         raise NotImplementedError(
             "Full diagonalization is not yet supported with custom Sylvester solvers."
         )
@@ -316,6 +317,12 @@ def block_diagonalize(
             raise ValueError(
                 "If the Hamiltonian has multiple blocks, `fully_diagonalize` may not be an ndarray."
             )
+
+    if custom_solve_sylvester and fully_diagonalize:
+        # A single block is fully diagonalized by default.
+        raise NotImplementedError(
+            "Full diagonalization is not yet supported with custom Sylvester solvers."
+        )
 
     # Convert scalar expressions in fully_diagonalize to sympy matrices. For that it is
     # sufficient to test for sympy.Expr because sympy.MatrixBase is not a subclass of
